@@ -33,10 +33,29 @@ var typeByName = map[string]reflect.Type{
 	// U1 is an unnamed struct type: every Tk is assignable to it (and back) without being
 	// identical to it, so it tells type identity from mere assignability.
 	"U1": reflect.TypeOf(struct{ ID int }{}),
+	// E is the interface type error, PE a pointer type implementing it
+	"E": reflect.TypeOf((*error)(nil)).Elem(), "PE": reflect.TypeOf(&EV{}),
+	// L1 and L2 are distinct types that print the same name
+	"L1": localType1(), "L2": localType2(),
+}
+
+// EV is an error value carrying a token.
+type EV struct{ ID int }
+
+func (e *EV) Error() string { return fmt.Sprintf("EV %d", e.ID) }
+
+func localType1() reflect.Type {
+	type L struct{ ID int }
+	return reflect.TypeOf(L{})
+}
+
+func localType2() reflect.Type {
+	type L struct{ ID int }
+	return reflect.TypeOf(L{})
 }
 
 // concrete type used when a function must produce a value of an interface type
-var ifaceImpl = map[string]string{"I1": "T1", "I2": "T3"}
+var ifaceImpl = map[string]string{"I1": "T1", "I2": "T3", "E": "PE"}
 
 var nameByType = func() map[reflect.Type]string {
 	m := map[reflect.Type]string{}
@@ -74,8 +93,13 @@ func MkValue(tname string, id int) reflect.Value {
 	if c, ok := ifaceImpl[tname]; ok {
 		cn = c
 	}
-	v := reflect.New(TypeOf(cn)).Elem()
-	v.Field(0).SetInt(int64(id))
+	var v reflect.Value
+	if cn == "PE" {
+		v = reflect.ValueOf(&EV{ID: id})
+	} else {
+		v = reflect.New(TypeOf(cn)).Elem()
+		v.Field(0).SetInt(int64(id))
+	}
 	if cn != tname {
 		iv := reflect.New(TypeOf(tname)).Elem()
 		iv.Set(v)
@@ -157,6 +181,14 @@ type Scenario struct {
 	NoFollowUp bool `json:"noFollowUp"`
 	// TwinOf = 1: this history repeats the previous one without its Redefine steps
 	TwinOf int `json:"twinOf"`
+}
+
+// In0Type is the type of the first parameter ("" if none).
+func (f FuncSpec) In0Type() string {
+	if len(f.In) == 0 {
+		return ""
+	}
+	return f.In[0].Type
 }
 
 func (s *Scenario) Normalize() {
